@@ -6,6 +6,18 @@ kept legal (Latin-1, no control characters, end-to-end headers only): an illegal
 argument is not a baize defect.
 """
 import asyncio
+import contextvars
+import enum
+
+CURRENT_USER = contextvars.ContextVar("current_user", default="anonymous")
+
+
+class AppStatus(int, enum.Enum):
+    """applications often keep their status codes in an enum of their own"""
+    OK = 200
+    CREATED = 201
+    NOT_FOUND = 404
+    TEAPOT = 418
 
 STATUSES = [200, 200, 201, 204, 299, 301, 404, 418, 500, 599, 600]
 HDR_NAMES = ["X-A", "x-b", "Cache-Control", "X-Long-Header-Name", "Server", "X-é".encode("latin-1").decode("latin-1")]
@@ -48,6 +60,7 @@ def gen_recipe(t, kinds=None, files=None):
     kinds = kinds or ["response", "text", "html", "json", "redirect", "stream", "sse", "file"]
     kind = t.choice([k for k in kinds if k != "file" or files])
     r = {"kind": kind, "status": t.choice(STATUSES) if t.draw(2) else 200, "headers": gen_headers(t), "cookies": gen_cookies(t)}
+    r["status_enum"] = t.draw(5) == 0
     if kind in ("text", "html"):
         r["content"] = t.choice(TEXTS)
         r["as_bytes"] = t.draw(3) == 0
@@ -83,6 +96,7 @@ def gen_recipe(t, kinds=None, files=None):
         r["charset"] = t.choice(["utf-8", "utf-8", "latin-1"])
         r["delays"] = [t.choice([0.0, 0.0, 1.001]) for _ in range(n)]
         r["raise_at"] = None
+        r["ctxvar"] = t.choice([None, None, "alice", "bob"])     # the view sets a context variable, the lazy generator reads it
     elif kind == "file":
         rel, size = t.choice(files)
         r["file"] = rel
@@ -117,6 +131,8 @@ def build(r, iface, fs=None, hooks=None):
         import baize.asgi as M
     k = r["kind"]
     headers = dict(r["headers"]) if r["headers"] else None
+    if r.get("status_enum") and r["status"] in (200, 201, 404, 418) and k in ("response", "text", "html", "json", "stream", "sse"):
+        r = dict(r, status=AppStatus(r["status"]))
     if k == "response":
         resp = M.Response(r["status"], headers)
     elif k in ("text", "html"):
@@ -157,6 +173,15 @@ def build(r, iface, fs=None, hooks=None):
     elif k == "sse":
         boom = hooks.get("boom") or ProducerError("producer")
         sleep = hooks.get("sleep")
+        if r.get("ctxvar"):
+            CURRENT_USER.set(r["ctxvar"])
+
+        def ev(e):
+            e = dict(e)
+            if r.get("ctxvar") and "data" in e:
+                e["data"] = "%s for %s" % (e["data"], CURRENT_USER.get())
+            return e
+
         if iface == "wsgi":
             def gen():
                 for i, e in enumerate(r["events"]):
@@ -164,7 +189,7 @@ def build(r, iface, fs=None, hooks=None):
                         raise boom
                     if r["delays"][i] and sleep:
                         sleep(r["delays"][i])
-                    yield dict(e)
+                    yield ev(e)
                 if r["raise_at"] == len(r["events"]):
                     raise boom
         else:
@@ -174,7 +199,7 @@ def build(r, iface, fs=None, hooks=None):
                         raise boom
                     if r["delays"][i]:
                         await asyncio.sleep(r["delays"][i])
-                    yield dict(e)
+                    yield ev(e)
                 if r["raise_at"] == len(r["events"]):
                     raise boom
         resp = M.SendEventResponse(gen(), r["status"], headers, ping_interval=r["ping_interval"], charset=r["charset"])
